@@ -69,7 +69,7 @@ def op_term(op):
         return C(k, op[1], op[2])
     if k == "DelItem":
         return C(k, op[1])
-    if k in ("Update", "Ior"):
+    if k in ("Update", "Ior", "Ctor"):
         return C(k, op[1] == "map", amap(op[2]))
     if k == "SetDefault":
         return C(k, op[1], op[2])
@@ -111,7 +111,7 @@ def shape(case, obs, step):
         if vkk in before:
             return "coerced-key-present"
         return "key-absent"
-    if op[0] in ("Update", "Ior"):
+    if op[0] in ("Update", "Ior", "Ctor"):
         return op[1]
     return "-"
 
@@ -206,7 +206,7 @@ def gen_case(rnd, ctx, maxlen):
     ops = []
     for _ in range(rnd.randint(1, maxlen)):
         k = rnd.choice(["SetItem"] * 3 + ["DelItem"] * 2 + ["Update"] * 3 + ["Ior"] * 2 + ["SetDefault"] * 3 +
-                       ["SetDefault1", "Pop", "Pop", "PopD", "PopD", "PopItem", "Clear"])
+                       ["SetDefault1", "Pop", "Pop", "PopD", "PopD", "PopItem", "Clear", "Ctor"])
         if k == "SetItem":
             key = pick_key()
             op = [k, key, pick_val(key)]
@@ -214,6 +214,8 @@ def gen_case(rnd, ctx, maxlen):
             op = [k, pick_key()]
         elif k in ("Update", "Ior"):
             op = [k, rnd.choice(["map", "pairs", "pairs"]), pick_pairs()]
+        elif k == "Ctor":
+            op = [k, rnd.choice(["map", "pairs"]) if target == "plain" else "map", pick_pairs()]
         elif k == "SetDefault":
             key = pick_key()
             op = [k, key, pick_val(key)]
@@ -232,9 +234,11 @@ def gen_case(rnd, ctx, maxlen):
             a, b = vld(kk, op[1]), vld(vk, op[2])
             if a is not None and b is not None and (op[0] == "SetItem" or op[1] not in cur):
                 cur[a] = b
-        elif op[0] in ("Update", "Ior"):
+        elif op[0] in ("Update", "Ior", "Ctor"):
             vps = [(vld(kk, a), vld(vk, b)) for a, b in op[2]]
             if all(a is not None and b is not None for a, b in vps):
+                if op[0] == "Ctor":
+                    cur.clear()
                 cur.update(vps)
             if len(set(a for a, _ in op[2])) < len(op[2]) or len(set(a for a, _ in vps)) < len(vps):
                 ctx.count("update:duplicate-keys")
@@ -266,7 +270,9 @@ def corpus():
                        ops=[["DelItem", 2], ["DelItem", 2], ["Pop", 7], ["Pop", 7, 10], ["Pop", 1, 10], ["Pop", 3],
                             ["SetItem", 101, 10], ["SetItem", 1, 110], ["Update", "pairs", [[1, 10], [101, 11]]],
                             ["SetDefault", 4, 12], ["SetDefault", 4, 200], ["SetDefault1", 0], ["PopItem"], ["Clear"],
-                            ["Clear"], ["PopItem"], ["Update", "map", []], ["Ior", "pairs", []]]))
+                            ["Clear"], ["PopItem"], ["Update", "map", []], ["Ior", "pairs", []],
+                            ["Ctor", "map", [[1, 10], [101, 11], [2, 12]]], ["SetItem", 2, 10], ["Ctor", "map", [[3, 10], [200, 10]]],
+                            ["Ctor", "map", [[3, 110]]], ["PopItem"]]))
     cs.append(dict(kk={"tab": [[1, 2], [2, 3], [0, None]]}, vk={"tab": [[10, 11], [11, None]]}, target="plain",
                    init=[[1, 10], [2, 10]],
                    ops=[["SetItem", 1, 10], ["SetDefault", 1, 12], ["Update", "pairs", [[1, 10], [2, 12], [3, 10]]],
@@ -291,6 +297,7 @@ def grid(ctx, stride, offset):
     for ps in pair_lists:
         for kind in ("map", "pairs"):
             ops += [["Update", kind, ps], ["Ior", kind, ps]]
+        ops += [["Ctor", "map", ps]]
     cs, i = [], 0
     for target in ("plain", "obj", "obj_noitems"):
         for kk in ("VAll", "VInt", "VCInt"):
@@ -315,7 +322,7 @@ def run(ctx):
         "framework between TraitDict.notify and the observe handler (only dict_event_factory is modelled); validators "
         "are inputs (VAll/VInt/VCInt/VTab tables in C06/Model.v mirror the driver's callables and Any/Int/CInt traits)",
     ]
-    ctx.cov["rule"] = ("random operation histories over all TraitDict mutators (__setitem__, __delitem__, update and |= "
+    ctx.cov["rule"] = ("random operation histories over construction from raw items and all TraitDict mutators (__setitem__, __delitem__, update and |= "
                        "from mappings and pair lists with duplicate / coercion-colliding keys, setdefault with and without "
                        "value, pop with and without default, popitem, clear) on a stand-alone TraitDict and on the "
                        "TraitDictObject of Dict traits (with and without items event), key and value validators "
